@@ -7,7 +7,8 @@ LEVEL = "model_checking"
 def run(ctx):
   return _shared.run_clauses(ctx, "C03.", lambda e: e['tag'] == 'redo',
                              "undone bundles are re-applied with ApplyDocActions(stored); clause C03.redo: the document equals the post-bundle document",
-                             corpora=_shared.BOTH)
+                             corpora=_shared.BOTH,
+                             design=("MC_DocActions", "MC_DocActions_quick.cfg" if ctx.quick else "MC_DocActions.cfg"))
 
 
 def replay(ctx, data):
